@@ -6,6 +6,8 @@ import (
 	"go/token"
 	"go/types"
 	"strings"
+
+	"golang.org/x/tools/go/packages"
 )
 
 // REUSE-ALIAS (C01): a value whose slice storage is reset and refilled on every iteration must
@@ -43,18 +45,51 @@ import (
 // (`append(dst, v.Clone())`, `append([]T(nil), v.Paths...)`); stores into collections declared
 // inside the scope; marshalling the value into a byte buffer (the normal use).
 //
-// Anchored to ingest/compact and encoding (violations fail); would-be violations in other
-// packages are reported as info. Not decided: stores of `&V` (pointer aliasing is a different
+// Retaining callees (second kind of store, and second kind of instance). A call that hands the
+// slice to a function which keeps it is a store too, although nothing is assigned in sight:
+//
+//   - the external functions of raExternalRetainers (bodies in a dependency, each confirmed by
+//     reading github.com/golang/geo/s2): s2.LoopFromPoints, s2.PolygonFromLoops,
+//     s2.PolygonFromOrientedLoops;
+//   - a conversion of the slice (or of its address) to a named slice type of package s2
+//     (`s2.Polyline(points)`, `(*s2.Polyline)(&points)`): a conversion shares the backing array;
+//   - module functions proved retaining by shape (three rounds): a slice parameter that is passed
+//     on to a retaining callee, converted as above, or stored into a field / element
+//     (`x.f = p`, `x[i] = p`).
+//
+// Every call of such a callee whose argument is rooted at a slice *variable* (through
+// parentheses, `&` and re-slicing `v[a:b]`; not a call result or a literal) is an instance, keyed
+// function#retain<n> in source order. Obligation: the variable's storage is not reused between two
+// such calls. It is reused when, in the outermost enclosing iteration scope that does not contain
+// the variable's declaration (for a variable rooted at the receiver, a pointer parameter or a
+// package variable: also the whole function, reuse across calls), the variable is reset or
+// refilled (as above), re-sliced to a prefix of itself (`v = v[:n]`), or has elements stored
+// (`v[i] = ...`), and is never assigned a fresh value there (`v = make(...)`, `v = f(...)`).
+// A local defined once as another slice or as a prefix of it (`loop := buffer[:n]`,
+// `points := m.scratch`) stands for that slice; taking the same prefix on every run counts as a
+// re-slice.
+// Accepted: `points := make([]s2.Point, n)` (or any other fresh declaration) inside the loop body; a
+// variable only appended to or only read inside the scope; arguments that are call results.
+//
+// Anchored to ingest/compact, encoding, ingest and geojson (violations fail). Obligations in
+// ingest/change.go and geojson serve C32 (GeoJSON import), all others C01; would-be violations
+// in other packages are reported as info. Not decided: stores of `&V` (pointer aliasing is a different
 // class), plain field stores `o.f = v`, aliasing across calls of a method that reuses receiver
 // fields (no iteration scope in sight), function literals that run only once.
 func init() {
 	register(&Rule{
 		Name:  "REUSE-ALIAS",
 		IR:    "ast",
-		Props: []string{"C01"},
-		Floor: 16,
-		Doc: "in ingest/compact and encoding, a variable whose slice storage is reset and refilled inside a loop body or callback (x = x[0:0], x = f(x[0:0], ...), or a call of a function that does so on its pointer receiver/parameter) " +
-			"and that is declared outside that scope is not copied by value (append, indexed store, composite literal, channel send) into a collection that outlives the scope, unless the stored value is produced by a call (clone)",
+		Props: []string{"C01", "C32"},
+		Floor: 44,
+		// C01: refill sites and retaining calls of ingest/compact, encoding and ingest (without
+		// change.go); C32: the retaining calls of ingest/change.go and geojson. Set from the
+		// engine's enumeration on the repaired tree.
+		FloorBy: map[string]int{"C01": 38, "C32": 6},
+		Doc: "in ingest/compact, encoding, ingest and geojson, a variable whose slice storage is reset and refilled inside a loop body or callback (x = x[0:0], x = f(x[0:0], ...), or a call of a function that does so on its pointer receiver/parameter) " +
+			"and that is declared outside that scope is not copied by value (append, indexed store, composite literal, channel send) into a collection that outlives the scope, nor handed to a function that keeps its slice argument " +
+			"(s2.LoopFromPoints, s2.PolygonFromLoops, s2.PolygonFromOrientedLoops, conversions to s2 slice types, module functions that pass it on or store it), unless the stored value is produced by a call (clone); " +
+			"conversely every call of such a retaining function on a slice variable gets a slice whose storage is not reset, re-sliced or overwritten for the next iteration",
 		Run: runReuseAlias,
 	})
 }
@@ -184,6 +219,185 @@ type raSite struct {
 type raAnalysis struct {
 	c       *Ctx
 	summary map[*types.Func][]raRefill
+	retains map[*types.Func]map[int]string // module functions that keep slice parameter k, with the reason
+}
+
+// raExternalRetainers: functions of dependencies that keep the slice they are given. The rule
+// cannot read their bodies; each entry was confirmed in the module cache
+// (github.com/golang/geo@v0.0.0-20190916061304-5b978397cfec/s2).
+var raExternalRetainers = map[string]struct {
+	arg int
+	why string
+}{
+	"github.com/golang/geo/s2.LoopFromPoints":           {0, "loop.go: LoopFromPoints sets Loop.vertices = pts, the loop's vertex storage is the argument"},
+	"github.com/golang/geo/s2.PolygonFromLoops":         {0, "polygon.go: PolygonFromLoops sets Polygon.loops = loops (and initNested reorders that slice in place)"},
+	"github.com/golang/geo/s2.PolygonFromOrientedLoops": {0, "polygon.go: PolygonFromOrientedLoops ends in PolygonFromLoops(loops), which keeps the slice"},
+}
+
+const raS2Path = "github.com/golang/geo/s2"
+
+// raSliceArg strips parentheses, & and re-slicing from an argument and resolves it to a chain
+// rooted at a variable.
+func raSliceArg(info *types.Info, e ast.Expr) (raChain, bool) {
+	for {
+		e = ast.Unparen(e)
+		switch x := e.(type) {
+		case *ast.UnaryExpr:
+			if x.Op != token.AND {
+				return raChain{}, false
+			}
+			e = x.X
+			continue
+		case *ast.SliceExpr:
+			e = x.X
+			continue
+		}
+		break
+	}
+	ch, ok := raChainOf(info, e)
+	if !ok {
+		return raChain{}, false
+	}
+	t := info.TypeOf(e)
+	if t == nil {
+		return raChain{}, false
+	}
+	if p, isPtr := t.Underlying().(*types.Pointer); isPtr {
+		t = p.Elem()
+	}
+	if _, isSlice := t.Underlying().(*types.Slice); !isSlice {
+		return raChain{}, false
+	}
+	return ch, true
+}
+
+// retainer: does the call keep one of its slice arguments? Returns the argument and the reason.
+func (a *raAnalysis) retainer(info *types.Info, call *ast.CallExpr) (ast.Expr, string, bool) {
+	// conversion to a named slice type of s2 (or a pointer to one)
+	if tv, ok := info.Types[call.Fun]; ok && tv.IsType() && len(call.Args) == 1 {
+		t := tv.Type
+		if p, isPtr := t.Underlying().(*types.Pointer); isPtr {
+			t = p.Elem()
+		}
+		if n, isNamed := types.Unalias(t).(*types.Named); isNamed && n.Obj().Pkg() != nil && n.Obj().Pkg().Path() == raS2Path {
+			if _, isSlice := n.Underlying().(*types.Slice); isSlice {
+				return call.Args[0], fmt.Sprintf("the conversion to %s shares the backing array of its operand", types.TypeString(tv.Type, func(p *types.Package) string { return p.Name() })), true
+			}
+		}
+		return nil, "", false
+	}
+	f := calleeFunc(info, call)
+	if f == nil || f.Pkg() == nil {
+		return nil, "", false
+	}
+	if e, ok := raExternalRetainers[f.Pkg().Path()+"."+f.Name()]; ok && f.Type().(*types.Signature).Recv() == nil && e.arg < len(call.Args) {
+		return call.Args[e.arg], "s2." + f.Name() + " keeps its argument (" + e.why + ")", true
+	}
+	if m := a.retains[f.Origin()]; len(m) > 0 {
+		for k := 0; k < len(call.Args); k++ {
+			if why, ok := m[k]; ok {
+				return call.Args[k], f.Name() + " keeps its argument: " + why, true
+			}
+		}
+	}
+	return nil, "", false
+}
+
+// summariseRetainers computes the module functions that keep a slice parameter.
+func (a *raAnalysis) summariseRetainers() {
+	a.retains = map[*types.Func]map[int]string{}
+	for round := 0; round < 3; round++ {
+		changed := false
+		for _, p := range a.c.SortedPkgs() {
+			info := p.TypesInfo
+			for _, fd := range a.c.FuncDecls(p) {
+				fn, _ := info.Defs[fd.Name].(*types.Func)
+				if fn == nil {
+					continue
+				}
+				params := map[types.Object]int{}
+				i := 0
+				for _, fl := range fd.Type.Params.List {
+					for _, n := range fl.Names {
+						if o := info.Defs[n]; o != nil {
+							if _, ok := o.Type().Underlying().(*types.Slice); ok && !bIsByteSlice(o.Type()) {
+								params[o] = i
+							}
+						}
+						i++
+					}
+					if len(fl.Names) == 0 {
+						i++
+					}
+				}
+				if len(params) == 0 {
+					continue
+				}
+				// a parameter that is assigned in the body no longer names the caller's slice
+				reassigned := map[types.Object]bool{}
+				ast.Inspect(fd.Body, func(n ast.Node) bool {
+					if as, ok := n.(*ast.AssignStmt); ok {
+						for _, l := range as.Lhs {
+							if id, ok := ast.Unparen(l).(*ast.Ident); ok {
+								if o := info.ObjectOf(id); o != nil {
+									if _, isParam := params[o]; isParam {
+										reassigned[o] = true
+									}
+								}
+							}
+						}
+					}
+					return true
+				})
+				note := func(o types.Object, why string) {
+					k, ok := params[o]
+					if !ok || reassigned[o] {
+						return
+					}
+					if a.retains[fn] == nil {
+						a.retains[fn] = map[int]string{}
+					}
+					if _, have := a.retains[fn][k]; !have {
+						a.retains[fn][k] = why
+						changed = true
+					}
+				}
+				whole := func(e ast.Expr) (types.Object, bool) {
+					ch, ok := raSliceArg(info, e)
+					if !ok || len(ch.steps) != 0 {
+						return nil, false
+					}
+					return ch.root, true
+				}
+				ast.Inspect(fd.Body, func(n ast.Node) bool {
+					switch x := n.(type) {
+					case *ast.CallExpr:
+						if arg, why, ok := a.retainer(info, x); ok {
+							if o, ok := whole(arg); ok {
+								note(o, fmt.Sprintf("it passes it on at %s (%s)", a.c.Position(x.Pos()), why))
+							}
+						}
+					case *ast.AssignStmt:
+						if len(x.Lhs) != len(x.Rhs) || x.Tok != token.ASSIGN {
+							return true
+						}
+						for i, l := range x.Lhs {
+							switch ast.Unparen(l).(type) {
+							case *ast.SelectorExpr, *ast.IndexExpr:
+								if o, ok := whole(x.Rhs[i]); ok {
+									note(o, fmt.Sprintf("it stores it with `%s` at %s", nodeText(a.c.Fset, x), a.c.Position(x.Pos())))
+								}
+							}
+						}
+					}
+					return true
+				})
+			}
+		}
+		if !changed {
+			break
+		}
+	}
 }
 
 func raJoinPath(a, b string) string {
@@ -377,6 +591,7 @@ func raScopeOf(info *types.Info, n ast.Node) *raScope {
 func runReuseAlias(c *Ctx) []Obligation {
 	a := &raAnalysis{c: c}
 	a.summarise()
+	a.summariseRetainers()
 	var out []Obligation
 	for _, p := range c.SortedPkgs() {
 		anchored := false
@@ -385,8 +600,20 @@ func runReuseAlias(c *Ctx) []Obligation {
 				anchored = true
 			}
 		}
+		rel := relPkg(p)
+		if rel == "ingest" || rel == "geojson" {
+			anchored = true
+		}
+		// which property an obligation at this position serves
+		propsAt := func(pos token.Pos) []string {
+			if rel == "geojson" || strings.HasPrefix(c.Position(pos), "ingest/change.go:") {
+				return []string{"C32"}
+			}
+			return []string{"C01"}
+		}
 		info := p.TypesInfo
 		for _, fd := range c.FuncDecls(p) {
+			out = append(out, a.retainCalls(p, fd, anchored, propsAt)...)
 			ord := 0
 			// all refill sites of the declaration, including those inside literals
 			var sites []raSite
@@ -418,7 +645,7 @@ func runReuseAlias(c *Ctx) []Obligation {
 					continue // not inside an iteration scope
 				}
 				ord++
-				ob := Obligation{Key: fmt.Sprintf("%s#%d", c.FuncName(p, fd), ord), Pos: c.Position(s.node.Pos())}
+				ob := Obligation{Key: fmt.Sprintf("%s#%d", c.FuncName(p, fd), ord), Pos: c.Position(s.node.Pos()), Props: propsAt(s.node.Pos())}
 				root := s.loc.root
 				var reuse *raScope
 				why := ""
@@ -518,6 +745,12 @@ func (a *raAnalysis) stores(info *types.Info, sc *raScope, loc raChain) []string
 		switch x := n.(type) {
 		case *ast.FuncLit:
 			return n == ast.Node(sc.node) // do not descend into other literals
+		case *ast.CallExpr:
+			if arg, why, ok := a.retainer(info, x); ok {
+				if ch, ok := raSliceArg(info, arg); ok && raIsPrefix(info, ch, loc) {
+					out = append(out, fmt.Sprintf("%s hands it to a function that keeps it (`%s`: %s)", a.c.Position(x.Pos()), nodeText(a.c.Fset, x), why))
+				}
+			}
 		case *ast.SendStmt:
 			if aliases(x.Value) {
 				out = append(out, fmt.Sprintf("%s sends it on a channel (`%s`)", a.c.Position(x.Pos()), nodeText(a.c.Fset, x)))
@@ -569,5 +802,227 @@ func (a *raAnalysis) stores(info *types.Info, sc *raScope, loc raChain) []string
 		}
 		return true
 	})
+	return out
+}
+
+// raOverlap: one chain is a prefix of the other.
+func raOverlap(info *types.Info, a, b raChain) bool {
+	return raIsPrefix(info, a, b) || raIsPrefix(info, b, a)
+}
+
+// retainCalls: the second kind of instance, calls of retaining callees on slice variables.
+func (a *raAnalysis) retainCalls(p *packages.Package, fd *ast.FuncDecl, anchored bool, propsAt func(token.Pos) []string) []Obligation {
+	c, info := a.c, p.TypesInfo
+	var out []Obligation
+	type site struct {
+		call *ast.CallExpr
+		loc  raChain
+		why  string
+	}
+	var sites []site
+	ast.Inspect(fd.Body, func(n ast.Node) bool {
+		if call, ok := n.(*ast.CallExpr); ok {
+			if arg, why, ok := a.retainer(info, call); ok {
+				if ch, ok := raSliceArg(info, arg); ok {
+					sites = append(sites, site{call, ch, why})
+				}
+			}
+		}
+		return true
+	})
+	recv := bRecvObj(info, fd)
+	ord := 0
+	for _, s := range sites {
+		ord++
+		ob := Obligation{Key: fmt.Sprintf("%s#retain%d", c.FuncName(p, fd), ord), Pos: c.Position(s.call.Pos()), Props: propsAt(s.call.Pos())}
+		// a local that is defined once as (a prefix of) another slice names that slice's storage:
+		// `loop := buffer[:n]`, `points := m.scratch`
+		var aliasNotes []string
+		for depth := 0; depth < 2; depth++ {
+			r := s.loc.root
+			if len(s.loc.steps) != 0 || r.Pos() < fd.Body.Pos() || r.Pos() > fd.Body.End() {
+				break
+			}
+			var defs []ast.Expr
+			var defStmt ast.Node
+			others := 0
+			ast.Inspect(fd.Body, func(n ast.Node) bool {
+				switch x := n.(type) {
+				case *ast.AssignStmt:
+					for i, l := range x.Lhs {
+						if id, ok := ast.Unparen(l).(*ast.Ident); ok && info.ObjectOf(id) == r {
+							if len(x.Lhs) == len(x.Rhs) && x.Tok == token.DEFINE {
+								defs, defStmt = append(defs, x.Rhs[i]), x
+							} else {
+								others++
+							}
+						}
+					}
+				case *ast.ValueSpec:
+					for i, id := range x.Names {
+						if info.Defs[id] == r && i < len(x.Values) && len(x.Values) == len(x.Names) {
+							defs, defStmt = append(defs, x.Values[i]), x
+						}
+					}
+				}
+				return true
+			})
+			if len(defs) != 1 || others != 0 {
+				break
+			}
+			def := ast.Unparen(defs[0])
+			prefix := false
+			if se, ok := def.(*ast.SliceExpr); ok {
+				if se.Low != nil && !raIsZero(info, se.Low) {
+					break
+				}
+				def, prefix = se.X, true
+			}
+			ch, ok := raSliceArg(info, def)
+			if !ok {
+				break
+			}
+			if prefix {
+				aliasNotes = append(aliasNotes, fmt.Sprintf("%s: %s is the same prefix of %s on every run (`%s`)", c.Position(defStmt.Pos()), r.Name(), ch, nodeText(c.Fset, defStmt)))
+			}
+			s.loc = ch
+		}
+		root := s.loc.root
+		chain := enclosing(fd.Body, s.call)
+		var scopes []*raScope // innermost first
+		for i := len(chain) - 1; i >= 0; i-- {
+			if sc := raScopeOf(info, chain[i]); sc != nil && sc.body.Pos() <= s.call.Pos() && s.call.End() <= sc.body.End() {
+				scopes = append(scopes, sc)
+			}
+		}
+		// a variable that outlives the call: the whole function is a reuse scope (across calls)
+		outlivesCall := root == recv || root.Pkg() == nil || root.Parent() == root.Pkg().Scope()
+		if !outlivesCall && (root.Pos() < fd.Body.Pos() || root.Pos() > fd.Body.End()) {
+			// a parameter: only pointer parameters name storage of the caller that is refilled here
+			_, outlivesCall = root.Type().Underlying().(*types.Pointer)
+		}
+		var reuse *raScope
+		why := "the call is not inside a loop or function literal"
+		for _, sc := range scopes {
+			if root.Pos() >= sc.node.Pos() && root.Pos() <= sc.node.End() {
+				why = fmt.Sprintf("%s is declared inside the %s at %s: a fresh slice for every call", root.Name(), raScopeKind(sc), c.Position(sc.node.Pos()))
+				break
+			}
+			indexed := false
+			for _, st := range s.loc.steps {
+				if st.index != nil && dsMentions(info, st.index, sc.loopVars) {
+					indexed = true
+				}
+			}
+			if indexed {
+				why = fmt.Sprintf("%s is addressed through the loop variable of the %s at %s: a different slice every iteration", s.loc, raScopeKind(sc), c.Position(sc.node.Pos()))
+				break
+			}
+			reuse = sc
+			why = ""
+		}
+		var body ast.Node
+		scopeText := ""
+		switch {
+		case reuse != nil:
+			body, scopeText = reuse.body, fmt.Sprintf("the %s at %s", raScopeKind(reuse), c.Position(reuse.node.Pos()))
+		case outlivesCall && why == "the call is not inside a loop or function literal":
+			body, scopeText = fd.Body, "every call of "+fd.Name.Name+" (the variable outlives the call)"
+		}
+		if body == nil {
+			ob.Status, ob.Detail = OK, fmt.Sprintf("`%s` keeps %s (%s); %s", nodeText(c.Fset, s.call), s.loc, s.why, why)
+			if anchored {
+				out = append(out, ob)
+			}
+			continue
+		}
+		// how is the variable written inside the scope?
+		reused := append([]string(nil), aliasNotes...)
+		fresh := false
+		var lit ast.Node
+		if reuse != nil {
+			lit = reuse.node
+		}
+		a.sites(info, body, func(rs raSite) {
+			if raOverlap(info, rs.loc, s.loc) {
+				reused = append(reused, fmt.Sprintf("%s: %s", c.Position(rs.node.Pos()), rs.how))
+			}
+		})
+		ast.Inspect(body, func(n ast.Node) bool {
+			if fl, ok := n.(*ast.FuncLit); ok && ast.Node(fl) != lit {
+				return false
+			}
+			as, ok := n.(*ast.AssignStmt)
+			if !ok {
+				return true
+			}
+			for i, l := range as.Lhs {
+				lch, ok := raChainOf(info, l)
+				if !ok {
+					continue
+				}
+				var rhs ast.Expr
+				if len(as.Lhs) == len(as.Rhs) {
+					rhs = as.Rhs[i]
+				} else if len(as.Rhs) == 1 {
+					rhs = as.Rhs[0]
+				}
+				switch {
+				case raIsPrefix(info, lch, s.loc) && as.Tok == token.ASSIGN:
+					// assignment to the variable itself (or to something that contains it)
+					selfSlice, selfAppend, selfReset := false, false, false
+					if se, ok := ast.Unparen(rhs).(*ast.SliceExpr); ok && sameExpr(info, se.X, l) {
+						selfSlice = true
+						if se.Low != nil && !raIsZero(info, se.Low) {
+							selfSlice = false // drops a prefix: the remaining storage is still shared, but nothing is refilled
+							selfAppend = true
+						}
+					}
+					if call, ok := ast.Unparen(rhs).(*ast.CallExpr); ok {
+						if isBuiltin(info, call, "append") && len(call.Args) > 0 && sameExpr(info, call.Args[0], l) {
+							selfAppend = true
+						}
+						for _, arg := range call.Args {
+							if src, ok := raZeroReslice(info, arg); ok && sameExpr(info, src, l) {
+								selfReset = true // already reported by sites()
+							}
+						}
+					}
+					switch {
+					case selfSlice:
+						if _, zero := raZeroReslice(info, rhs); !zero {
+							reused = append(reused, fmt.Sprintf("%s: re-sliced to a prefix of itself `%s`", c.Position(as.Pos()), nodeText(c.Fset, as)))
+						}
+					case selfAppend, selfReset:
+					default:
+						fresh = true
+					}
+				case len(lch.steps) == len(s.loc.steps)+1 && lch.steps[len(lch.steps)-1].field == "" && raIsPrefix(info, s.loc, lch):
+					reused = append(reused, fmt.Sprintf("%s: element overwritten `%s`", c.Position(as.Pos()), nodeText(c.Fset, as)))
+				}
+			}
+			return true
+		})
+		switch {
+		case len(reused) == 0:
+			ob.Status = OK
+			ob.Detail = fmt.Sprintf("`%s` keeps %s (%s); %s is declared outside %s but is not reset, re-sliced or overwritten there", nodeText(c.Fset, s.call), s.loc, s.why, root.Name(), scopeText)
+		case fresh:
+			ob.Status = OK
+			ob.Detail = fmt.Sprintf("`%s` keeps %s (%s); %s is assigned a fresh value inside %s", nodeText(c.Fset, s.call), s.loc, s.why, s.loc, scopeText)
+		default:
+			ob.Status = Violation
+			ob.Detail = fmt.Sprintf("`%s` keeps %s (%s), but the storage of %s is reused by %s (declared outside it and never assigned a fresh slice there): %s; what was kept by an earlier call is overwritten",
+				nodeText(c.Fset, s.call), s.loc, s.why, s.loc, scopeText, reused[0])
+			ob.Path = reused
+		}
+		if !anchored {
+			if ob.Status != Violation {
+				continue
+			}
+			ob.Status = Info
+		}
+		out = append(out, ob)
+	}
 	return out
 }
